@@ -259,10 +259,18 @@ impl WalWriter {
         stable_offset: u64,
         stable_entry_count: usize,
     ) -> Result<()> {
-        self.rollback_to_offset(stable_offset)?;
-        self.bytes_written = stable_offset;
-        self.entry_count = stable_entry_count;
-        Ok(())
+        let rollback = self.rollback_to_offset(stable_offset);
+        // The truncate can have taken effect even if a later rollback step (seek, fsync)
+        // failed. Resynchronise the counters with what is really on disk: the next append
+        // derives its own rollback point from `bytes_written`, and a stale value there
+        // would turn that rollback into a no-op and leave a failed frame in the log.
+        if let Ok(metadata) = self.file.metadata() {
+            self.bytes_written = metadata.len();
+            if metadata.len() == stable_offset {
+                self.entry_count = stable_entry_count;
+            }
+        }
+        rollback
     }
 
     fn perform_fsync(&mut self) -> Result<()> {
